@@ -589,6 +589,134 @@ pub fn run(tier: Tier, seed: u64) -> i32 {
     }
     fams.push(json!({"family": "K:media data box after moov (compact, 64-bit, open-ended size-0 header) or before it (compact, 64-bit) x chunking x offset width, two tracks", "n_max": nk, "files": ck}));
 
+    // (L) long tables with periodic content: N in {33, 255, 256, 257, 1000, 65537}; chunk sizes, deltas, offsets, sync
+    // flags and sizes periodic with periods 1..3 (one dimension varied at a time, then all together with co-prime
+    // periods); a single chunk of N samples; N chunks of one sample
+    {
+        let lens: Vec<usize> = if th { vec![33, 255, 256, 257, 1000, 65537] } else { vec![33, 255, 256, 257, 1000] };
+        let mut items: Vec<(usize, u8, Vec<u32>)> = vec![];
+        for &n in lens.iter().chain([12000usize].iter()) {
+            for dim in 0..6u8 {
+                if n == 12000 && dim < 4 {
+                    continue; // the 12000-sample tables vary the chunk map (more than 5461 runs) only
+                }
+                for period in 1..=3usize {
+                    for code in 0..3usize.pow(period as u32) {
+                        let pat: Vec<u32> = (0..period).map(|i| ((code / 3usize.pow(i as u32)) % 3) as u32).collect();
+                        items.push((n, dim, pat));
+                    }
+                }
+            }
+        }
+        let cl = items.len() as u64;
+        par(items, &mut l, |(n, dim, pat), l| {
+            let n = *n;
+            let at = |i: usize| pat[i % pat.len()];
+            let samples: Vec<LSample> = (0..n)
+                .map(|i| LSample {
+                    size: if *dim == 0 || *dim == 5 { [1, 0, 2][at(i) as usize] } else { 1 + (i as u32 % 2) },
+                    delta: if *dim == 1 || *dim == 5 { [1, 3, 0][at(i + 1) as usize] } else { 10 },
+                    cts: if *dim == 2 || *dim == 5 { [0, 5, -5][at(i + 2) as usize] } else { 0 },
+                    sync: if *dim == 3 || *dim == 5 { at(i) != 1 } else { true },
+                })
+                .collect();
+            // chunking: dim 4 (and 5) make the chunk sizes periodic over {1,2,3}; otherwise one chunk of N / N chunks of 1
+            let mut chunks: Vec<u32> = vec![];
+            if *dim == 4 || *dim == 5 {
+                let mut left = n as u32;
+                let mut i = 0usize;
+                while left > 0 {
+                    let c = (1 + at(i)).min(left);
+                    chunks.push(c);
+                    left -= c;
+                    i += 1;
+                }
+            } else if pat[0] == 0 {
+                chunks = vec![n as u32];
+            } else {
+                chunks = vec![1; n];
+            }
+            let mut t = LTrack::simple(1, Codec::Avc, 1000, samples, chunks);
+            t.ctts = if *dim == 2 || *dim == 5 { Some((pat.len() % 2) as u8) } else { None };
+            t.stss = *dim == 3 || *dim == 5;
+            t.co64 = pat.len() == 2;
+            judge("C03", "L:long_periodic_tables", &LMovie::new(1000, vec![t]), l);
+        });
+        fams.push(json!({"family": "L:long periodic tables (N = 33, 255, 256, 257, 1000 (+65537 thorough); sizes / deltas / offsets / sync / chunk sizes periodic with period 1..3, one dimension at a time and all together; one chunk of N and N chunks of 1)", "files": cl}));
+    }
+
+    // (M) regular tables with ONE irregularity: sync positions / deltas / chunk sizes periodic (period 2, 3, 4, 12) over
+    // N = 24, 40 and 240 samples, with the entry at every position (every 7th for N = 240) moved off the grid
+    {
+        let mut items: Vec<(usize, u8, usize, usize)> = vec![];
+        for n in [24usize, 40, 240] {
+            for dim in 0..3u8 {
+                for period in [2usize, 3, 4, 12] {
+                    for j in (0..n).step_by(if n > 100 { 7 } else { 1 }) {
+                        items.push((n, dim, period, j));
+                    }
+                }
+            }
+        }
+        let cm = items.len() as u64;
+        par(items, &mut l, |(n, dim, period, j), l| {
+            let (n, period, j) = (*n, *period, *j);
+            let mut samples: Vec<LSample> = (0..n).map(|i| LSample { size: 1 + (i as u32 % 3), delta: if *dim == 1 { if i % period == 0 { 7 } else { 3 } } else { 10 }, cts: 0, sync: if *dim == 0 { i % period == 0 } else { true } }).collect();
+            let mut chunks: Vec<u32> = if *dim == 2 {
+                let mut v = vec![];
+                let mut left = n as u32;
+                let mut i = 0;
+                while left > 0 {
+                    let c = (if i % period == 0 { 3 } else { 2 }).min(left);
+                    v.push(c);
+                    left -= c;
+                    i += 1;
+                }
+                v
+            } else {
+                vec![n as u32]
+            };
+            // the irregularity
+            match *dim {
+                0 => {
+                    // move one sync sample one position later (or add one where there was none)
+                    if samples[j].sync && j + 1 < n {
+                        samples[j].sync = false;
+                        samples[j + 1].sync = true;
+                    } else {
+                        samples[j].sync = true;
+                    }
+                }
+                1 => samples[j].delta += 1,
+                _ => {
+                    let k = j % chunks.len();
+                    if chunks[k] > 1 && k + 1 < chunks.len() {
+                        chunks[k] -= 1;
+                        chunks[k + 1] += 1;
+                    }
+                }
+            }
+            let mut t = LTrack::simple(1, Codec::Hevc, 90000, samples, chunks);
+            t.stss = *dim == 0;
+            judge("C03", "M:regular_with_one_irregularity", &LMovie::new(1000, vec![t]), l);
+        });
+        fams.push(json!({"family": "M:periodic sync positions / deltas / chunk sizes (period 2, 3, 4, 12; N = 24, 40, 240) with one entry moved off the grid, at every position", "files": cm}));
+    }
+    // (N) two tracks whose chunks of 300 variable-size samples alternate in the file (chunks of one run are not contiguous)
+    {
+        let mk = |id: u32, codec: Codec| {
+            let samples: Vec<LSample> = (0..900).map(|i| LSample { size: 1 + ((i as u32 * 7 + id) % 5), delta: 3, cts: 0, sync: true }).collect();
+            LTrack::simple(id, codec, 1000, samples, vec![300, 300, 300])
+        };
+        for co64 in [false, true] {
+            let mut a = mk(1, Codec::Avc);
+            a.co64 = co64;
+            let b = mk(2, Codec::Aac);
+            judge("C03", "N:interleaved_long_chunks", &LMovie::new(1000, vec![a, b]), &mut l);
+        }
+        fams.push(json!({"family": "N:two tracks, three chunks of 300 variable-size samples each, chunks interleaved in the file", "files": 2}));
+    }
+
     // (H) real files: the independent decoder (refmp4::parse) reads the canned files' tables, evaluates the lookup
     // semantics on them, and every sample is compared with what the library returns.  This binds the reference
     // model to bytes produced by other muxers (ffmpeg), not only to its own encoder.
